@@ -115,9 +115,21 @@ def specRun (split : Option (List Bytes)) (env osenv : Env) (code : Nat) (impl :
           else s!"FAIL exit status {code} reported as {r.report}"
 
 /-- words of the hook command the `hk` op configures (after the helper program):
-`$MTX_QUERY ${MTX_READER_ID} $MTX_PATH-$G1` -/
+`$MTX_QUERY ${MTX_READER_ID} $MTX_PATH-$G1 "$MTX_SEGMENT_PATH" $MTX_SOURCE_ID$MTX_CONN_ID $MTX_SEGMENT_DURATION` -/
 def hookWords : List Bytes :=
-  [strBytes "$MTX_QUERY", strBytes "${MTX_READER_ID}", strBytes "$MTX_PATH-$G1"]
+  [strBytes "$MTX_QUERY", strBytes "${MTX_READER_ID}", strBytes "$MTX_PATH-$G1", strBytes "$MTX_SEGMENT_PATH",
+   strBytes "$MTX_SOURCE_ID$MTX_CONN_ID", strBytes "$MTX_SEGMENT_DURATION"]
+
+def parseKind : String → Option HookKind
+  | "read" => some .read
+  | "avail" => some (.avail true)
+  | "availn" => some (.avail false)
+  | "online" => some (.online true)
+  | "onlinen" => some (.online false)
+  | "demand" => some .demand
+  | "connect" => some .connect
+  | "seg" => some .seg
+  | _ => none
 
 def step (_ : Unit) (op impl : String) : Unit × DrvOut :=
   let rc := true
@@ -159,23 +171,28 @@ def step (_ : Unit) (op impl : String) : Unit × DrvOut :=
           | none => "ok"
       ((), { model, spec })
     | _, _, _, _, _ => ((), { model := "bad-op" })
-  | ["hk", nameH, portH, groupsS, mode, q1, t1, i1, q2, t2, i2, _raw1, _raw2] =>
-    match Hex.decode nameH, Hex.decode portH, parseSplit groupsS, [q1, t1, i1, q2, t2, i2].mapM Hex.decode with
-    | some name, some port, some (some groups), some [q1, t1, i1, q2, t2, i2] =>
-      let e1 := readHookEnv name port groups q1 t1 i1
-      let e2 := readHookEnv name port groups q2 t2 i2
-      let order : List (Nat × Env) := if mode == "ru" then [(1, e1), (2, e2), (1, e1), (2, e2)] else [(1, e1), (2, e2)]
-      let fmt (e : Env) : String := s!"argv={fmtWords (hookWords.map (expandEnv e []))} env={fmtSeen e []}"
+  | ["hk", nameH, portH, groupsS, mode, k1, a1, b1, c1, _d1, k2, a2, b2, c2, _d2] =>
+    match Hex.decode nameH, Hex.decode portH, parseSplit groupsS, parseKind k1, parseKind k2,
+          [a1, b1, c1, a2, b2, c2].mapM Hex.decode with
+    | some name, some port, some (some groups), some k1, some k2, some [a1, b1, c1, a2, b2, c2] =>
+      let env (k : HookKind) (stop : Bool) (a b c : Bytes) := hookEnv k stop name port groups a b c
+      let starts : List (Nat × Env) := if mode == "ru" then [(1, env k1 false a1 b1 c1), (2, env k2 false a2 b2 c2)] else []
+      let order := starts ++ [(1, env k1 true a1 b1 c1), (2, env k2 true a2 b2 c2)]
+      let keys := hookKeys groups.length
+      let fmt (e : Env) : String :=
+        let seen := ",".intercalate (keys.map fun k =>
+          Hex.encode k ++ ":" ++ (match childGet e [] k with | some v => Hex.encode v | none => "unset"))
+        s!"argv={fmtWords (hookWords.map (expandEnv e []))} env={seen}"
       let model := " | ".intercalate (order.map fun x => fmt x.2)
       let segs := impl.splitOn " | "
       let spec :=
         if segs.length != order.length then s!"FAIL expected {order.length} hook commands, saw: {impl}"
         else match (order.zip segs).find? (fun x => fmt x.1.2 != x.2) with
           | some ((j, e), seg) =>
-            s!"FAIL a hook command of reader {j} did not receive the values of that reader: expected {fmt e} got {seg}"
+            s!"FAIL a hook command of invocation {j} did not receive exactly the values of that invocation: expected {fmt e} got {seg}"
           | none => "ok"
       ((), { model, spec })
-    | _, _, _, _ => ((), { model := "bad-op" })
+    | _, _, _, _, _, _ => ((), { model := "bad-op" })
   | ["raw", _cmd, sp, e, o] =>
     match parseSplit sp, parseEnv e, parseEnv o with
     | some split, some env, some osenv =>
